@@ -35,7 +35,7 @@ ASSUMPTIONS = [
     "operations are decoded from the library's public dataclass fields",
     "reference evaluator vf.core.prog.ev_list shares no code with the library",
 ]
-EXHAUSTIVE_NOTE = "all slice pairs start 0..7 x stop {None,start..start+7} x row counts 0..9, both simplify() and factory tree"
+EXHAUSTIVE_NOTE = "all slice pairs start 0..7 x stop {None,start..start+7} x row counts 0..9 (simplify() and factory tree); plus all ordered pairs over the 20 unary operations of the C04 grid on 2 fixed targets"
 
 CFG = Cfg(engines=(1,), special_leaves=False, loose_bounds=False, max_cols=4, max_rows=6)
 
@@ -297,6 +297,30 @@ def exhaustive(tier, stats, shard, nshards, run):
                 v.case = case
                 raise
     stats.c["exhaustive_slice_pairs"] += len([1 for i in range(len(pairs)) if i % nshards == shard])
+    # grid of parameterised operation pairs (Hypothesis tends to draw the same operation twice for a pair)
+    from vf.checks.c04 import grid
+    from vf.core.matrix import A, B, C, UNIVERSE
+
+    g = [op for op in grid() if op[0] != "pjoin"]
+    targets = [
+        ((2, 1, 0), (0, 2, 1), (1, 0, 2), (2, 0, 1), (0, 1, 2)),
+        ((1, 1, 0), (0, 1, 1), (1, 1, 0), (0, 0, 1), (0, 1, 1)),
+    ]
+    idx = 0
+    for rows in targets:
+        leaf = ("L0", (A, B, C), rows, 1, "data", (len(rows), len(rows)), "plain")
+        for up in g:
+            for down in g:
+                idx += 1
+                if idx % nshards != shard:
+                    continue
+                case = (UNIVERSE, (leaf,), up, down)
+                try:
+                    run(case)
+                except Violation as v:
+                    v.case = case
+                    raise
+                stats.c["grid_pairs"] += 1
 
 
 def attribute(case, v):
